@@ -46,7 +46,7 @@ REGISTRY = {
                      "from a local web seed (3 layouts x 3 server modes): stored blocks must be the right bytes and inFlight must return to zero.",
             "note": "Trusted: TLC, the scripted HTTP server, mktor/content."},
     "C18": {"run": p_privacy.run, "design": "DESIGN.md section 3 C18",
-            "technique": "TLC exhaustive model checking of Privacy.tla + edge-covering walks of its state graph executed on a running torrent with every outbound channel observed (local tracker/web seed, SOCKS5 proxy, DHT announce hook, scripted peers)",
+            "technique": "TLC exhaustive model checking of Privacy.tla + edge-covering walks of its state graph executed on a running torrent with every outbound channel observed (local HTTP/UDP tracker, web seed, SOCKS5 proxy, DHT announce hook, scripted peers) + TLC trace validation of the recorded traces (PrivacyTrace.tla)",
             "level": "Privacy.tla (configuration x proxy x tracker-due x piece-wanted; Start, SetConf, DhtEvent, TrackerDue, Tick, Want, Incoming, Outgoing) is model-checked "
                      "exhaustively (PrivacyInv: nothing in Forbidden(conf, proxy) is ever produced). Walks covering every edge of the graph are executed on a real torrent "
                      "(its tickers stopped and fired on demand): the tracker and web seed are a local HTTP server, the proxy a local SOCKS5 server that "
@@ -82,10 +82,12 @@ REGISTRY = {
                      "is unlisted, peer connections closed, the reader fails, piece memory and goroutines return to their baselines.",
             "note": _LIVE},
     "C02": {"run": p_live.run_c02, "design": "DESIGN.md section 3 C02",
-            "technique": "TLC model checking of Reader.tla + simulated seek/read/evict/cancel/kill behaviours executed on a real tor.Reader with a harness-played honest seed",
+            "technique": "TLC model checking of Reader.tla and FuseHandle.tla + simulated seek/read/evict/cancel/kill behaviours executed on a real tor.Reader with a harness-played honest seed + FuseHandle cases on a real FUSE handle",
             "level": "Reader.tla gives io.Seeker semantics, clipping and EOF; TLC checks Window/EofExactlyAtLength and simulates behaviours over 5 ranges; each is run on a "
                      "real Reader of a running torrent: every byte equals the ground truth at offset+position, nothing beyond the range, EOF exactly at length, a blocked "
-                     "read returns once the seed has supplied what was requested (even after evictions, no (0,nil) spin), and fails once cancelled or deleted.",
+                     "read returns once the seed has supplied what was requested (even after evictions, no (0,nil) spin), and fails once cancelled or deleted. "
+                     "FuseHandle.tla (Seek+ReadFull under a semaphore on the Reader shared by all reads of one open file) is model-checked, the unserialised variant refuted, "
+                     "and 44 (read A blocked on a late piece, read B) cases run on a real FUSE handle.",
             "note": _LIVE},
     "C05": {"run": p_peerfsm.run, "design": "DESIGN.md section 3 C05",
             "technique": "TLC model checking of PeerFsm.tla + every (state class x message class) edge and random message sequences executed on peer.handleMessage and tor.handleEvent with crash/hang/allocation monitors",
@@ -95,12 +97,14 @@ REGISTRY = {
                      "beyond the bound are violations, outcome mismatches are reported as nonconformance.",
             "note": "Trusted: TLC, the stepping shims, TotalAlloc. Sequences up to 10 messages."},
     "C16": {"run": p_upload.run, "design": "DESIGN.md section 3 C16",
-            "technique": "TLC exhaustive model checking of Upload.tla + TLC-simulated behaviours applied to the real peer handlers with every written message checked",
+            "technique": "TLC exhaustive model checking of Upload.tla and Congestion.tla + TLC-simulated behaviours and edge-covering walks applied to the real peer handlers with every written message checked",
             "level": "Upload.tla (interest, choking with counter, request queue with head drop, cancel, upload tick serving/rejecting, eviction) is model-checked "
                      "exhaustively (2 peers, 8 steps) and simulated to depth 30; the behaviours drive handleMessage/handleEvent/scheduleUpload of real peers over "
                      "a real piece store; each Piece written must go to a peer that saw Unchoke last, answer a still-pending request of that peer, carry the true "
-                     "bytes of the range from a verified piece; NumUnchoking() must equal the number of peers with amUnchoking set after every step.",
-            "note": "Trusted: TLC, the stepping shims. Congestion re-queue and disconnect paths are outside this binding."},
+                     "bytes of the range from a verified piece; NumUnchoking() must equal the number of peers with amUnchoking set after every step; no step may allocate "
+                     "more than 8 MiB. Congestion.tla (a remote that stops reading: writer of 4 slots, what each call site does when a write fails) is model-checked, "
+                     "its shipped variant refuted, and walks covering every edge of both variants are run with a writer channel the harness stops reading.",
+            "note": "Trusted: TLC, the stepping shims. Head drop at reqQ=250 under congestion is not driven."},
     "C11": {"run": p_sched.run, "design": "DESIGN.md section 3 C11",
             "technique": "TLC model checking of Sched.tla / Advert.tla / Pex.tla + behaviours and case tables executed on the real peer code with every message written to the wire checked",
             "level": "Requests/cancels: the Sched.tla behaviours (see C09) are applied to the real handlers and every Request/Cancel the peer writes is checked "
